@@ -260,33 +260,34 @@ def check_live(H, M, chain, raiser, elabel, esrc):
     if ok:
         H.check(not eo_bad, 'formatted_equals_interpreter', 'format_exception_only', elabel, witness,
                 'got %r, interpreter %r' % (eo, std_eo), snip('feo'))
-    # ExceptionInfo
+    # whole texts: a wrong frames part that is just TracebackInfo's text (reported above) and a wrong exception line that
+    # is just format_exception_only's (reported above) are not reported a second time under another site
+    def whole(site, txt, key, eo_text=None):
+        if nl(txt) == nl(std):
+            return
+        if txt.startswith(std_tb):
+            rest, ref = txt[len(std_tb):], std[len(std_tb):]
+        elif tb_bad and tb_txt is not None and txt.startswith(tb_txt):
+            rest, ref = txt[len(tb_txt):], std[len(std_tb):]
+        else:
+            H.fail('formatted_equals_interpreter', site, fclass, witness, 'got %r, interpreter %r' % (txt, std), snip(key))
+            return
+        if nl(rest) != nl(ref) and not (eo_bad and rest == eo_text):
+            H.fail('formatted_equals_interpreter', site, elabel, witness, 'exception part %r, interpreter %r' % (rest, ref), snip(key))
     ok, ei = H.guard(lambda: ExceptionInfo.from_exc_info(et, ev, tb), 'formatted_equals_interpreter', 'ExceptionInfo.from_exc_info', elabel + '; raises', witness)
     if ok:
         ok, txt = H.guard(ei.get_formatted, 'formatted_equals_interpreter', 'ExceptionInfo.get_formatted', elabel + '; raises', witness)
-        if ok and nl(txt) != nl(std):
-            if txt.startswith(std_tb) or not tb_bad:      # frames part right (or wrong on its own) -> exception line
-                H.fail('formatted_equals_interpreter', 'ExceptionInfo.get_formatted', elabel, witness,
-                       'got %r, interpreter %r' % (txt, std), snip('ei'))
-            elif not (tb_txt is not None and txt.startswith(tb_txt)):   # not merely the TracebackInfo text reported above
-                H.fail('formatted_equals_interpreter', 'ExceptionInfo.get_formatted', fclass, witness,
-                       'got %r, interpreter %r' % (txt, std), snip('ei'))
-            if tb_bad and tb_txt is not None and txt.startswith(tb_txt) and nl(txt[len(tb_txt):]) != nl(std[len(std_tb):]):
-                H.fail('formatted_equals_interpreter', 'ExceptionInfo.get_formatted', elabel, witness,
-                       'exception line %r, interpreter %r' % (txt[len(tb_txt):], std[len(std_tb):]), snip('ei'))
+        if ok:
+            whole('ExceptionInfo.get_formatted', txt, 'ei')
         ok, d = H.guard(lambda: ei.to_dict()['exc_tb']['frames'], 'frames_equal_stdlib', 'ExceptionInfo.to_dict', fclass + '; raises', witness)
         if ok:
             fr = [(c.get('module_path'), c.get('lineno'), c.get('func_name'), str(c.get('line') or '').strip()) for c in d]
             H.check(fr == std_frames, 'frames_equal_stdlib', 'ExceptionInfo.to_dict', fclass, witness,
                     'frames %r, traceback.extract_tb %r' % (fr, std_frames))
-    # print_exception = TracebackInfo text + format_exception_only: report only what is not already reported there
     buf = io.StringIO()
     ok, _ = H.guard(lambda: tbutils.print_exception(et, ev, tb, file=buf), 'formatted_equals_interpreter', 'print_exception', elabel + '; raises', witness)
-    if ok and buf.getvalue() != std:
-        derived = (tb_bad or eo_bad) and tb_txt is not None and not isinstance(eo, Exception) and buf.getvalue() == tb_txt + ''.join(eo)
-        if not derived:
-            H.fail('formatted_equals_interpreter', 'print_exception', elabel + ' / ' + fclass, witness,
-                   'got %r, interpreter %r' % (buf.getvalue(), std), snip('pe'))
+    if ok:
+        whole('print_exception', buf.getvalue(), 'pe', ''.join(eo) if isinstance(eo, list) else None)
     # the interpreter's own text (with marker lines) through the parser
     if not repeated:
         ok, pe = H.guard(lambda: ParsedException.from_string(raw), 'parse_live_text', 'ParsedException.from_string', 'live interpreter text; raises', raw)
